@@ -1,0 +1,123 @@
+//go:build verif
+
+package ion
+
+// This file is only compiled with the build tag "verif". It adds read-only probes and export
+// shims used by the external runtime monitors; it changes no behaviour of the library.
+
+import (
+	"math/big"
+)
+
+// ---- codec shims (bits.go) ----
+
+func VerifUintLen(v uint64) uint64                  { return uintLen(v) }
+func VerifAppendUint(b []byte, v uint64) []byte     { return appendUint(b, v) }
+func VerifIntLen(v int64) uint64                    { return intLen(v) }
+func VerifAppendInt(b []byte, v int64) []byte       { return appendInt(b, v) }
+func VerifBigIntLen(v *big.Int) uint64              { return bigIntLen(v) }
+func VerifAppendBigInt(b []byte, v *big.Int) []byte { return appendBigInt(b, v) }
+func VerifVarUintLen(v uint64) uint64               { return varUintLen(v) }
+func VerifAppendVarUint(b []byte, v uint64) []byte  { return appendVarUint(b, v) }
+func VerifVarIntLen(v int64) uint64                 { return varIntLen(v) }
+func VerifAppendVarInt(b []byte, v int64) []byte    { return appendVarInt(b, v) }
+func VerifTagLen(l uint64) uint64                   { return tagLen(l) }
+func VerifAppendTag(b []byte, code byte, l uint64) []byte {
+	return appendTag(b, code, l)
+}
+
+// VerifTimestampLen and VerifAppendTimestamp mirror what binaryWriter.WriteTimestamp does.
+func VerifTimestampBody(val Timestamp) (declared uint64, body []byte) {
+	_, offset := val.dateTime.Zone()
+	offset /= 60
+	val.dateTime = val.dateTime.UTC()
+	return timestampLen(offset, val), appendTimestamp(nil, offset, val)
+}
+
+// ---- reader-side codec shims (bitstream.go) ----
+
+// VerifReadVarUint decodes a VarUInt from the front of bs.
+func VerifReadVarUint(bs []byte) (uint64, uint64, error) {
+	var b bitstream
+	b.InitBytes(bs)
+	return b.readVarUintLen(uint64(len(bs)))
+}
+
+// VerifReadVarInt decodes a VarInt from the front of bs: value, sign, length.
+func VerifReadVarInt(bs []byte) (int64, int64, uint64, error) {
+	var b bitstream
+	b.InitBytes(bs)
+	return b.readVarIntLen(uint64(len(bs)))
+}
+
+// VerifReadInt decodes an int magnitude of len(bs) bytes (int64 or *big.Int).
+func VerifReadInt(bs []byte, negative bool) (interface{}, error) {
+	var b bitstream
+	b.InitBytes(bs)
+	b.code = bitcodeInt
+	if negative {
+		b.code = bitcodeNegInt
+	}
+	b.len = uint64(len(bs))
+	b.state = bssOnValue
+	return b.ReadInt()
+}
+
+// VerifReadDecimal decodes a decimal body.
+func VerifReadDecimal(bs []byte) (*Decimal, error) {
+	var b bitstream
+	b.InitBytes(bs)
+	return b.readDecimal(uint64(len(bs)))
+}
+
+// ---- state probes ----
+
+// VerifWriterState reports the protocol state of a Writer created by this package.
+type VerifWriterState struct {
+	Depth         int
+	Err           error
+	PendingField  bool
+	PendingAnnots int
+	Known         bool
+}
+
+func VerifProbeWriter(w Writer) VerifWriterState {
+	var base *writer
+	switch x := w.(type) {
+	case *binaryWriter:
+		base = &x.writer
+	case *textWriter:
+		base = &x.writer
+	default:
+		return VerifWriterState{}
+	}
+	return VerifWriterState{
+		Depth:         len(base.ctx.arr),
+		Err:           base.err,
+		PendingField:  base.fieldName != nil,
+		PendingAnnots: len(base.annotations),
+		Known:         true,
+	}
+}
+
+// VerifReaderState reports the cursor state of a Reader created by this package.
+type VerifReaderState struct {
+	Depth int
+	EOF   bool
+	Err   error
+	Pos   uint64
+	Known bool
+}
+
+func VerifProbeReader(r Reader) VerifReaderState {
+	switch x := r.(type) {
+	case *binaryReader:
+		return VerifReaderState{Depth: len(x.ctx.arr), EOF: x.eof, Err: x.err, Pos: x.bits.pos, Known: true}
+	case *textReader:
+		return VerifReaderState{Depth: len(x.ctx.arr), EOF: x.eof, Err: x.err, Pos: x.tok.pos, Known: true}
+	}
+	return VerifReaderState{}
+}
+
+// VerifIsNegZero exposes the negative-zero flag of a Decimal.
+func VerifIsNegZero(d *Decimal) bool { return d.isNegZero }
